@@ -76,7 +76,7 @@ Record decoder_ok (dec : str -> Z * Z) : Prop := mkDecOk {
              128 <= r /\ Forall high (firstn (Z.to_nat w) (b :: l))
 }.
 
-Lemma utf8_decoder_ok : decoder_ok Utf8.decode.
+Lemma utf8_decoder_ok : decoder_ok Utf8M.decode.
 Proof.
   assert (Hpos : forall p, Z.to_nat (Z.pos p) = Pos.to_nat p) by reflexivity.
   constructor.
